@@ -586,16 +586,21 @@ impl StateStore {
         // The wall-clock millisecond alone is not unique: two checkpoints taken within the same
         // millisecond would share one directory. A per-store sequence suffix keeps ids distinct
         // (zero-padded so that ids still sort chronologically).
-        let checkpoint_seq = self.checkpoint_seq;
-        self.checkpoint_seq += 1;
-        let checkpoint_id = format!(
-            "checkpoint_{}_{:06}",
-            SystemTime::now()
-                .duration_since(UNIX_EPOCH)
-                .unwrap()
-                .as_millis(),
-            checkpoint_seq
-        );
+        let mut checkpoint_seq = self.checkpoint_seq;
+        let now_ms = SystemTime::now()
+            .duration_since(UNIX_EPOCH)
+            .unwrap()
+            .as_millis();
+        let mut checkpoint_id = format!("checkpoint_{}_{:06}", now_ms, checkpoint_seq);
+        // A store opened on a directory an earlier store left starts its sequence at 0 again: never
+        // hand out an id under which a checkpoint file already exists (it would be overwritten).
+        if let StateBackend::File { path } = &self.config.backend {
+            while path.join(&checkpoint_id).join("state.json").is_file() {
+                checkpoint_seq += 1;
+                checkpoint_id = format!("checkpoint_{}_{:06}", now_ms, checkpoint_seq);
+            }
+        }
+        self.checkpoint_seq = checkpoint_seq + 1;
 
         let state = self.state.read().unwrap();
         let snapshot: HashMap<String, Value> = state
